@@ -146,3 +146,15 @@ def dict_ext(dt, a, b):
     equal domains and equal values everywhere => equal dict terms"""
     k = z3.Const('ext!k', dt.k.sort())
     return z3.Implies(z3.ForAll([k], z3.And(dt.dom(a)[k] == dt.dom(b)[k], dt.val(a)[k] == dt.val(b)[k])), a == b)
+
+
+def ssum_congr_axiom():
+    """Lean: ssum_congr, universally closed (pattern: the two ssum terms)"""
+    USED.add('ssum_congr')
+    a = z3.Const('sga!a', z3.ArraySort(z3.IntSort(), z3.RealSort()))
+    b = z3.Const('sga!b', z3.ArraySort(z3.IntSort(), z3.RealSort()))
+    n = z3.Int('sga!n')
+    i = z3.Int('sga!i')
+    return [z3.ForAll([a, b, n], z3.Implies(
+        z3.ForAll([i], z3.Implies(z3.And(i >= 0, i < n), a[i] == b[i])), ssum(a, n) == ssum(b, n)),
+        patterns=[z3.MultiPattern(ssum(a, n), ssum(b, n))])]
